@@ -52,6 +52,8 @@ pub struct Planner {
     tx_id: Option<TxId>,
     /// Epoch to use for visibility checks.
     viewing_epoch: EpochId,
+    /// Epoch stamped on what this plan creates (chosen on first use).
+    write_epoch: std::cell::OnceCell<EpochId>,
     /// Counter for generating unique anonymous edge column names.
     anon_edge_counter: std::cell::Cell<u32>,
     /// Whether to use factorized execution for multi-hop queries.
@@ -71,6 +73,7 @@ impl Planner {
             tx_manager: None,
             tx_id: None,
             viewing_epoch: epoch,
+            write_epoch: std::cell::OnceCell::new(),
             anon_edge_counter: std::cell::Cell::new(0),
             factorized_execution: true,
         }
@@ -96,6 +99,7 @@ impl Planner {
             tx_manager: Some(tx_manager),
             tx_id,
             viewing_epoch,
+            write_epoch: std::cell::OnceCell::new(),
             anon_edge_counter: std::cell::Cell::new(0),
             factorized_execution: true,
         }
@@ -115,13 +119,21 @@ impl Planner {
 
     /// Returns the epoch to stamp on nodes and edges this plan creates.
     ///
-    /// Inside a transaction they stay pending until commit.
+    /// Inside a transaction they stay pending until commit. An auto-commit statement
+    /// commits on its own: it gets one fresh epoch, so that transactions which began
+    /// earlier keep their snapshot.
     fn write_epoch(&self) -> EpochId {
-        if self.tx_id.is_some() {
-            self.store.uncommitted_stamp(self.viewing_epoch)
-        } else {
-            self.viewing_epoch
-        }
+        *self.write_epoch.get_or_init(|| {
+            if self.tx_id.is_some() {
+                self.store.uncommitted_stamp(self.viewing_epoch)
+            } else if let Some(tx_manager) = &self.tx_manager {
+                let epoch = tx_manager.advance_epoch();
+                self.store.sync_epoch(epoch);
+                epoch
+            } else {
+                self.viewing_epoch
+            }
+        })
     }
 
     /// Returns a reference to the transaction manager, if available.
